@@ -141,6 +141,24 @@ def angle_arc(A, B, axis, theta):
     return C, r, M
 
 
+def origin_arc(A, B, O):
+    """the arc `arc a b origin (O)` describes (flatness 1): about O when O is equidistant from both ends;
+    otherwise (OpenFOAM's rule) about the point of the chord's bisector plane-side of O whose distance to both
+    ends is the average of |OA| and |OB|. Symmetric in A and B. Returns (centre, radius, mid point)."""
+    A, B, O = fl(A), fl(B), fl(O)
+    r1, r3 = vsub(A, O), vsub(B, O)
+    m1, m3 = vnorm(r1), vnorm(r3)
+    mid = vmul(0.5, vadd(A, B))
+    C, r = O, m1
+    if abs(m1 - m3) > 1e-7:
+        r = 0.5 * (m1 + m3)
+        chord = vsub(B, A)
+        d = vcross(vcross(r1, r3), chord)
+        C = vadd(mid, vmul(math.sqrt(r * r - 0.25 * vdot(chord, chord)) / vnorm(d), d))
+    u = vsub(mid, C)
+    return C, r, vadd(C, vmul(r / vnorm(u), u))
+
+
 def arc3_length(A, P, B) -> float:
     """length of the circle arc from A through P to B"""
     A, P, B = fl(A), fl(P), fl(B)
@@ -175,7 +193,12 @@ class C07(core.Check):
         "face under random call sequences. About a third of the asm cases are assembled again (Mesh.backport() and/or "
         "Mesh.clear() + assemble(), one or two rounds) and observed after every round. revolve cases: a quadrilateral in a half "
         "plane through the axis revolved by +-0.5..3.5 rad (face as given / inverted, some re-assembled), oracle only. Angle data "
-        "carry both signs on every position. Non-trivial = at least one curved datum; distinct = different case."
+        "carry both signs on every position. Round 3: a fifth of the lofts is inverted after creation (Operation.invert, in the model); "
+        "half of the Origin data have an origin nearer to one end (1/8 or 1/4 of the chord, either side); an eighth of the arc / angle "
+        "data is shallow but valid (|cross of the arms| 2e-5..6e-5, i.e. 200..600 TOL; exactly collinear ones stay at 0); revolve cases "
+        "are inverted / mirrored / rotated about a non-parallel axis / moved after creation; curvemove cases move an end vertex of a "
+        "curve-snapped edge along its curve between two outputs without re-assembly (oracle only). "
+        "Non-trivial = at least one curved datum; distinct = different case."
     )
     assumptions = [
         "each EdgeData object sits at one position only (an object shared by several edges would be reversed once per position)",
@@ -220,16 +243,28 @@ class C07(core.Check):
             dp = [Fr(1), Fr(0), Fr(0)]
         if kind == "arc":
             p = vadd(A, vmul(Fr(3, 8), dp))
-            if not collinear:
+            shallow = not collinear and rng.random() < 0.12
+            if shallow:
+                # gently curved but valid: |cross of the arms| is 2e-5 .. 6e-5 (200 .. 600 TOL), sagitta < 6e-5
+                p = vadd(p, vmul(Fr(1, 16384), w))
+                d["shallow"] = True
+            elif not collinear:
                 p = vadd(p, vmul(Fr(1, 4), w))
             d["p"] = frs(p)
             d["collinear"] = collinear
         elif kind == "origin":
             n = vcross(w, dp)
-            d["o"] = frs(vadd(mid, vmul(Fr(rng.choice([-2, -1, 1, 2]), 2), n)))
+            o = vadd(mid, vmul(Fr(rng.choice([-2, -1, 1, 2]), 2), n))
+            # half of them not equidistant from the two ends: nearer to the first or to the second one
+            o = vadd(o, vmul(Fr(rng.choice([0, 0, 0, 0, -2, -1, 1, 2]), 8), dp))
+            d["o"] = frs(o)
         elif kind == "angle":
             d["axis"] = frs(vcross(w, dp))
-            d["angle"] = str(Fr(rng.choice([-1, 1]) * rng.choice([1, 2, 3, 4, 5]), 2))
+            if rng.random() < 0.12:
+                d["angle"] = str(Fr(rng.choice([-1, 1]), 2048))  # shallow but valid (sagitta about 6e-5)
+                d["shallow"] = True
+            else:
+                d["angle"] = str(Fr(rng.choice([-1, 1]) * rng.choice([1, 2, 3, 4, 5]), 2))
         elif kind in ("spline", "polyLine"):
             n = rng.choice([2, 3])
             ts = [Fr(1, 8), Fr(1, 4), Fr(1, 2)][:n]
@@ -246,7 +281,7 @@ class C07(core.Check):
             raise ValueError(kind)
         return d
 
-    def _mk_op(self, rng, locs, corners: List[int], slots: Dict[int, str], tag0: int, bops, tops, collinear_p=0.15):
+    def _mk_op(self, rng, locs, corners: List[int], slots: Dict[int, str], tag0: int, bops, tops, collinear_p=0.15, invert=False):
         """operation over the 8 corner locations with data of the given kinds on the given slots.
         Face data is specified at construction (original order), side data after the face calls."""
         bottom, top = corners[:4], corners[4:]
@@ -270,6 +305,8 @@ class C07(core.Check):
             "top": {"pts": top, "edges": te, "fops": tops},
             "side": se,
         }
+        if invert:
+            op["invert"] = True  # Operation.invert() on the finished loft
         return op, tag
 
     def _fops(self, rng: random.Random, pts: List[int], n: int) -> List[list]:
@@ -327,7 +364,7 @@ class C07(core.Check):
                     tops = self._fops(rng, corners[4:], rng.choice([0, 1, 2]))
             else:
                 bops, tops = [], []
-            op, tag = self._mk_op(rng, locs, corners, slots, tag, bops, tops)
+            op, tag = self._mk_op(rng, locs, corners, slots, tag, bops, tops, invert=rng.random() < 0.2)
             ops.append(op)
         case = {"kind": "asm", "locs": [frs(l) for l in locs], "ops": ops}
         if rng.random() < 0.35:  # the mesh is assembled again: Mesh.backport() or Mesh.clear() + assemble()
@@ -366,7 +403,37 @@ class C07(core.Check):
         }
         if rng.random() < 0.3:
             case["history"] = rng.choice([["backport"], ["clear"]])
+        # the finished operation is inverted / mirrored / rotated about an axis that is not parallel to its own / moved
+        post = []
+        for _ in range(rng.choice([0, 1, 1, 1, 2])):
+            r = rng.random()
+            if r < 0.3:
+                post.append(["invert"])
+            elif r < 0.55:
+                post.append(["mirror", [str(x) for x in rng.choice([[0, 0, 1], [1, 0, 0], [1, 2, 2], [3, -4, 12]])], frs([Fr(rng.randint(-4, 4), 4) for _ in range(3)])])
+            elif r < 0.9:
+                post.append(["rotate", str(Fr(rng.choice([-5, -3, -1, 1, 2, 4]), 4)), [str(x) for x in rng.choice([[0, 1, 0], [1, 1, 0], [2, -1, 2], [6, 2, 3]])], frs([Fr(rng.randint(-4, 4), 4) for _ in range(3)])])
+            else:
+                post.append(["translate", frs([Fr(rng.randint(-8, 8), 4) for _ in range(3)])])
+        case["post"] = post
         return case
+
+    def _curvemove_case(self, rng: random.Random, s_: Optional[int] = None) -> dict:
+        """one loft with a curve-snapped edge; after the first output one or two of its end vertices are moved
+        along the curve (Vertex.move_to) and the output is read again, without re-assembly"""
+        locs = self._lattice(rng)
+        corners = self._cell(0, 0, 0)
+        p = rng.choice(ROT24)
+        corners = [corners[p[i]] for i in range(8)]
+        use = rng.choice([[], [], [["invert"]], [["shift", 1]]])
+        s_ = rng.randrange(12) if s_ is None else s_
+        op, _ = self._mk_op(rng, locs, corners, {s_: "curve"}, 0, [list(u) for u in use], [list(u) for u in use], collinear_p=0.0)
+        moves = []
+        for _ in range(rng.choice([1, 1, 2])):
+            end = rng.choice(["from", "to"])
+            t = rng.choice([Fr(-3, 16), Fr(1, 8), Fr(1, 4)]) if end == "from" else rng.choice([Fr(3, 4), Fr(7, 8), Fr(19, 16)])
+            moves.append([end, str(t)])
+        return {"kind": "curvemove", "locs": [frs(l) for l in locs], "op": op, "moves": moves}
 
     def _exhaustive(self, rng: random.Random) -> List[dict]:
         out = []
@@ -409,6 +476,7 @@ class C07(core.Check):
         cases = [self._asm_case(rng) for _ in range(n)]
         cases += [self._face_case(rng) for _ in range(n // 4)]
         cases += [self._revolve_case(rng) for _ in range(n // 8)]
+        cases += [self._curvemove_case(rng) for _ in range(n // 16)]
         # angle arcs of either sign on every position, as given and on an inverted face, once assembled again
         for sgn in (-1, 1):
             for s_, use in ((0, []), (3, []), (5, [["invert"]]), (7, []), (10, [["invert"]])):
@@ -507,11 +575,65 @@ class C07(core.Check):
             except Exception as e:
                 return {"reject": type(e).__name__}
             return {"accepted": True}
+        if case["kind"] == "curvemove":
+            op = case["op"]
+            faces = []
+            for key in ("bottom", "top"):
+                f = op[key]
+                face = cb.Face([pos[l] for l in f["pts"]], [self._make(cb, d, objs) for d in f["edges"]])
+                self._apply_fops(face, f["fops"], pos)
+                faces.append(face)
+            loft = cb.Loft(faces[0], faces[1])
+            for i, d in enumerate(op["side"]):
+                if d is not None:
+                    loft.add_side_edge(i, self._make(cb, d, objs))
+            mesh = cb.Mesh()
+            mesh.add(loft)
+            mesh.assemble()
+            d = next(x for x in op["bottom"]["edges"] + op["top"]["edges"] + op["side"] if x is not None)
+            index_of = {loc_of.get(tuple(float(x) for x in v.position), -1): v.index for v in mesh.vertex_list.vertices}
+            ends = {"from": index_of.get(d["from"], -1), "to": index_of.get(d["to"], -1)}
+            fn = curve_fn(unfrs(d["A"]), unfrs(d["B"]), unfrs(d["w"]))
+            stages = []
+
+            def look():
+                blk = mesh.block_list.blocks[0]
+                lengths = []
+                for a, b in BM_EDGES:
+                    wire = blk.wires[a][b]
+                    try:
+                        wl = float(wire.length)
+                    except Exception:
+                        wl = None
+                    lengths.append([wire.vertices[0].index, wire.vertices[1].index, wl])
+                stages.append(
+                    {
+                        "P": [[float(x) for x in v.position] for v in mesh.vertex_list.vertices],
+                        "text": mesh.edge_list.description,
+                        "lengths": lengths,
+                    }
+                )
+
+            look()
+            for end, t in case["moves"]:
+                if ends[end] >= 0:
+                    mesh.vertices[ends[end]].move_to(fn(float(Fr(t))))
+                look()
+            return {"stages": stages, "ends": ends}
         if case["kind"] == "revolve":
             face = cb.Face([fl(unfrs(p)) for p in case["pts"]])
             if case["invert"]:
                 face.invert()
             op = cb.Revolve(face, float(Fr(case["angle"])), fl(unfrs(case["axis"])), fl(unfrs(case["origin"])))
+            for t in case.get("post", []):
+                if t[0] == "invert":
+                    op.invert()
+                elif t[0] == "mirror":
+                    op.mirror(fl(unfrs(t[1])), fl(unfrs(t[2])))
+                elif t[0] == "rotate":
+                    op.rotate(float(Fr(t[1])), fl(unfrs(t[2])), fl(unfrs(t[3])))
+                else:
+                    op.translate(fl(unfrs(t[1])))
             mesh = cb.Mesh()
             mesh.add(op)
             mesh.assemble()
@@ -560,6 +682,8 @@ class C07(core.Check):
                     b = loc_of.get(tuple(float(x) for x in loft.top_face.points[i].position), -1)
                     side_ends.append([d["tag"], a, b])
                     loft.add_side_edge(i, self._make(cb, d, objs))
+            if op.get("invert"):
+                loft.invert()
             mesh.add(loft)
         mesh.assemble()
 
@@ -649,12 +773,7 @@ class C07(core.Check):
             return fl(A)
         if d["k"] == "angle":
             return angle_arc(A, B, unfrs(d["axis"]), float(Fr(d["angle"])))[2]
-        O = fl(unfrs(d["o"]))
-        mid = vmul(0.5, vadd(fl(A), fl(B)))
-        r = vnorm(vsub(fl(A), O))
-        u = vsub(mid, O)
-        n = vnorm(u)
-        return vadd(O, vmul(r / n, u))
+        return origin_arc(A, B, unfrs(d["o"]))[2]
 
     def _face_req(self, f: dict, locs) -> str:
         ops = []
@@ -671,6 +790,8 @@ class C07(core.Check):
     def requests(self, case: dict, impl: Any) -> List[str]:
         if case["kind"] == "revolve":
             return []  # oracle only: the operation is a Loft with four Angle side edges (covered by the asm cases)
+        if case["kind"] == "curvemove":
+            return []  # oracle only: the payload of a curve-snapped edge is opaque to the model
         if case["kind"] == "reject":
             ltab = "0/1,0/1,0/1;1/1,0/1,0/1;1/1,1/1,0/1;0/1,1/1,0/1"
             ln = "line~0~-~0/1~-"
@@ -696,6 +817,7 @@ class C07(core.Check):
                 + self._face_req(op["top"], locs)
                 + "!"
                 + ";".join(self._datum_req(d, locs) for d in op["side"])
+                + ("!inv" if op.get("invert") else "")
             )
         hist = case.get("history", [])
         return [f"c07.asm {ltab} " + "|".join(ops) + (f" {len(hist)}" if hist else "")]
@@ -768,7 +890,7 @@ class C07(core.Check):
                         out.append({"d": d, "op": n, "cls": cls, "a": f["pts"][i], "b": f["pts"][(i + 1) % 4]})
             for i, d in enumerate(op["side"]):
                 if d is not None:
-                    out.append({"d": d, "op": n, "cls": "side-edge", "a": d["from"], "b": d["to"]})
+                    out.append({"d": d, "op": n, "cls": "side-edge-inverted-op" if op.get("invert") else "side-edge", "a": d["from"], "b": d["to"]})
         return out
 
     def _valid(self, x: dict) -> bool:
@@ -789,9 +911,8 @@ class C07(core.Check):
         if k == "arc":
             return arc3_length(A, unfrs(d["p"]), B), 1e-7
         if k == "origin":
-            O = unfrs(d["o"])
-            ra, rb = vsub(fl(A), fl(O)), vsub(fl(B), fl(O))
-            r = vnorm(ra)
+            C, r, _ = origin_arc(A, B, unfrs(d["o"]))
+            ra, rb = vsub(fl(A), C), vsub(fl(B), C)
             return r * math.acos(max(-1.0, min(1.0, vdot(ra, rb) / (vnorm(ra) * vnorm(rb))))), 1e-6
         if k == "angle":
             _, r, _ = angle_arc(A, B, unfrs(d["axis"]), float(Fr(d["angle"])))
@@ -808,6 +929,8 @@ class C07(core.Check):
             return self._oracle_face(case, impl)
         if case["kind"] == "revolve":
             return self._oracle_revolve(case, impl)
+        if case["kind"] == "curvemove":
+            return self._oracle_curvemove(case, impl)
         found = self._oracle_stage(case, impl)
         for n, stage in enumerate(impl.get("later", [])):
             for v in self._oracle_stage(case, stage):
@@ -826,7 +949,7 @@ class C07(core.Check):
             out.append({"site": site, "what": what, "observed": obs, "expected": exp})
 
         # the side data were described for the end points the operation showed at that moment
-        claimed = {x["d"]["tag"]: (x["a"], x["b"]) for x in self._described(case) if x["cls"] == "side-edge"}
+        claimed = {x["d"]["tag"]: (x["a"], x["b"]) for x in self._described(case) if x["cls"].startswith("side-edge")}
         for tag, a, b in impl["side_ends"]:
             if claimed.get(tag) != (a, b):
                 return []  # the faces were re-indexed differently from what the generator assumed (C10's subject)
@@ -900,6 +1023,12 @@ class C07(core.Check):
                 x, p = next((q for q in problems if q[1][0] == "direction"), problems[0])
                 head = {"direction": "edge-direction", "side": "arc-wrong-side-of-chord"}.get(p[0], "edge-data")
                 sign = ":negative" if x["d"]["k"] == "angle" and Fr(x["d"]["angle"]) < 0 else ""
+                if x["d"]["k"] == "origin":
+                    O = fl(unfrs(x["d"]["o"]))
+                    da, db = vnorm(vsub(pos[x["a"]], O)), vnorm(vsub(pos[x["b"]], O))
+                    if abs(da - db) > 1e-7:  # which end of the *entry* the origin is nearer to
+                        first_is_a = V[w["v1"]] == x["a"]
+                        sign = ":origin-nearer-to-" + ("first" if (da < db) == first_is_a else "second") + "-vertex"
                 viol(f"{head}:{x['cls']}:{x['d']['k']}{sign}", p[1], w, x["d"])
         for pair, (w, e) in entry_of.items():
             if pair not in by_pair:
@@ -990,17 +1119,88 @@ class C07(core.Check):
             return ("side" if side < 0 else "data", f"arc {w['v1']} {w['v2']} passes through {triples[0]}, the described arc through {M}" + (" (other side of the chord)" if side < 0 else ""))
         return None
 
+    def _oracle_curvemove(self, case: dict, impl: Any) -> List[dict]:
+        """at every output the points of the curve-snapped entry run, evenly in the parameter, between the *current*
+        positions of the entry's two vertices (in that order) and the wires on that pair report that piece's length"""
+        out: List[dict] = []
+        op = case["op"]
+        d = next(x for x in op["bottom"]["edges"] + op["top"]["edges"] + op["side"] if x is not None)
+        ia, ib = impl["ends"]["from"], impl["ends"]["to"]
+        if ia < 0 or ib < 0 or ia == ib:
+            return []
+        fn = curve_fn(unfrs(d["A"]), unfrs(d["B"]), unfrs(d["w"]))
+        n = d["n"]
+        t = {"from": 0.0, "to": 1.0}
+        for k, st in enumerate(impl["stages"]):
+            if k > 0:
+                end, tn = case["moves"][k - 1]
+                t[end] = float(Fr(tn))
+            when = "first-output" if k == 0 else "after-move"
+            entries = []
+            for line in st["text"].splitlines()[2:]:
+                m = re.fullmatch(r"(\w+) (\d+) (\d+) \((.*)\)", line.strip())
+                if m:
+                    entries.append((m.group(1), int(m.group(2)), int(m.group(3)), m.group(4)))
+            mine = [e for e in entries if {e[1], e[2]} == {ia, ib}]
+            if len(entries) != 1 or len(mine) != 1 or mine[0][0] != "spline":
+                out.append({"site": f"OnCurveEdge:entry:{when}", "what": f"expected one spline entry between vertices {ia} and {ib}: {st['text']}"})
+                continue
+            _, v1, v2, body = mine[0]
+            nums = [float(x) for x in re.findall(r"-?\d+\.\d+(?:e-?\d+)?|-?\d+", body)]
+            pts = [nums[i : i + 3] for i in range(0, len(nums), 3)]
+            t1, t2 = (t["from"], t["to"]) if v1 == ia else (t["to"], t["from"])
+            # the vertices are where the case put them
+            if vnorm(vsub(st["P"][v1], fn(t1))) > 1e-9 or vnorm(vsub(st["P"][v2], fn(t2))) > 1e-9:
+                return []
+            want = [fn(t1 + (t2 - t1) * i / (n + 1)) for i in range(1, n + 1)]
+            if len(pts) != n or any(vnorm(vsub(p, q)) > 2e-5 for p, q in zip(pts, want)):
+                out.append(
+                    {
+                        "site": f"OnCurveEdge:points:{when}",
+                        "what": f"output {k} (moves {case['moves'][:k]}): spline {v1} {v2} lists {pts}; the curve between the vertices' positions (parameters {t1} -> {t2}) gives {want}",
+                        "observed": pts,
+                        "expected": want,
+                    }
+                )
+                continue
+            m_ = 400
+            exp = polyline_length([fn(t1 + (t2 - t1) * i / m_) for i in range(m_ + 1)])
+            for a, b, wl in st["lengths"]:
+                if {a, b} == {ia, ib} and (wl is None or abs(wl - exp) > 2e-3 * max(1.0, exp)):
+                    out.append({"site": f"OnCurveEdge:length:{when}", "what": f"output {k}: the wire {a}-{b} reports length {wl}, the piece of the curve between its vertices has {exp}", "observed": wl, "expected": exp})
+        return out
+
     def _oracle_revolve(self, case: dict, impl: Any) -> List[dict]:
-        """the four side edges of a Revolve: `arc a b` must turn from vertex a to vertex b by the written
-        angle about the axis, and its third point is vertex a turned by half of that angle — in particular
-        it lies on the far side of the chord as seen from the axis"""
+        """the four side edges of a Revolve, also after the operation was inverted / mirrored / rotated / moved:
+        `arc a b` lies on the circle about the (transformed) revolve axis, turns from vertex a to vertex b by the
+        written angle about the written axis, and its third point is vertex a turned by half of that angle — in
+        particular it lies on the far side of the chord as seen from the axis (for sector angles below pi)"""
         out: List[dict] = []
         axis = fl(unfrs(case["axis"]))
         na = vnorm(axis)
         axis = [x / na for x in axis]
         origin = fl(unfrs(case["origin"]))
         theta = float(Fr(case["angle"]))
+        # the axis line after the transforms (a line: the sign of the direction is irrelevant)
+        for t in case.get("post", []):
+            if t[0] == "mirror":
+                n = fl(unfrs(t[1]))
+                nn = vnorm(n)
+                n = [x / nn for x in n]
+                o = fl(unfrs(t[2]))
+                origin = vsub(origin, vmul(2 * vdot(vsub(origin, o), n), n))
+                axis = vsub(axis, vmul(2 * vdot(axis, n), n))
+            elif t[0] == "rotate":
+                k = fl(unfrs(t[2]))
+                nk = vnorm(k)
+                k = [x / nk for x in k]
+                o = fl(unfrs(t[3]))
+                origin = vadd(o, rot(vsub(origin, o), k, float(Fr(t[1]))))
+                axis = rot(axis, k, float(Fr(t[1])))
+            elif t[0] == "translate":
+                origin = vadd(origin, fl(unfrs(t[1])))
         sign = "negative" if theta < 0 else "positive"
+        how = "+".join(t[0] for t in case.get("post", [])) or "as-made"
         for n, st in enumerate(impl["stages"]):
             tail = ":after-reassembly" if n else ""
             P = st["P"]
@@ -1028,20 +1228,27 @@ class C07(core.Check):
                     out.append({"site": "AngleEdge.description:comment" + tail, "what": f"comment {comment!r} for arc {a} {b}"})
                     continue
                 th = float(cm.group(3))
+                wax = [float(x) for x in cm.group(4).split()]
                 ra, rb = vsub(P[a], origin), vsub(P[b], origin)
-                if abs(abs(th) - abs(theta)) > 1e-9 or vnorm(vsub(rot(ra, axis, th), rb)) > 1e-6:
-                    out.append({"site": f"Revolve:arc-sense:{sign}" + tail, "what": f"arc {a} {b} is written with angle {th} but turning vertex {a} by it about the axis does not give vertex {b} (revolved by {theta})"})
-                    continue
-                want = vadd(origin, rot(ra, axis, th / 2))
-                if vnorm(vsub(M, want)) > 1e-6:
-                    mid = vmul(0.5, vadd(P[a], P[b]))
-                    wrong_side = vdot(vsub(M, mid), vsub(want, mid)) < 0
+                # independent of what is written: the arc's point on the circle about the revolve axis
+                ca = vadd(origin, vmul(vdot(ra, axis), axis))
+                mid = vmul(0.5, vadd(P[a], P[b]))
+                cmid = vadd(origin, vmul(vdot(vsub(mid, origin), axis), axis))
+                rad = vnorm(vsub(P[a], ca))
+                u = vsub(mid, cmid)
+                geo = vadd(cmid, vmul((1.0 if abs(theta) < math.pi else -1.0) * rad / vnorm(u), u))
+                if abs(vnorm(wax) - 1) > 1e-6 or abs(abs(vdot(wax, axis)) - 1) > 1e-6:
+                    out.append({"site": f"Revolve:written-axis:{how}" + tail, "what": f"arc {a} {b} is written about the axis {wax}, the revolve axis after {how} is {axis}", "observed": wax, "expected": axis})
+                elif abs(abs(th) - abs(theta)) > 1e-9 or vnorm(vsub(rot(ra, wax, th), rb)) > 1e-6:
+                    out.append({"site": f"Revolve:arc-sense:{how}:{sign}" + tail, "what": f"arc {a} {b} is written with angle {th} about {wax}, but turning vertex {a} by it does not give vertex {b} (revolved by {theta}, then {how})"})
+                elif vnorm(vsub(M, geo)) > 1e-6:
+                    wrong_side = vdot(vsub(M, mid), vsub(geo, mid)) < 0
                     out.append(
                         {
                             "site": (f"AngleEdge.third_point:wrong-side-of-chord:{sign}" if wrong_side else f"AngleEdge.third_point:off-the-arc:{sign}") + tail,
-                            "what": f"arc {a} {b} (angle {th}) passes through {M}, vertex {a} turned by half the angle is {want}",
+                            "what": f"arc {a} {b} (angle {th}, {how}) passes through {M}, the arc about the revolve axis through {geo}",
                             "observed": M,
-                            "expected": want,
+                            "expected": geo,
                         }
                     )
         return out
@@ -1086,8 +1293,10 @@ class C07(core.Check):
     def classify(self, case, impl):
         if case["kind"] == "reject":
             return "ill-formed:" + (impl.get("reject", "accepted") if isinstance(impl, dict) else "?")
+        if case["kind"] == "curvemove":
+            return "curvemove:" + "+".join(m[0] for m in case["moves"])
         if case["kind"] == "revolve":
-            return "revolve:" + ("negative" if Fr(case["angle"]) < 0 else "positive") + (":inverted" if case["invert"] else "") + (":reassembled" if case.get("history") else "")
+            return "revolve:" + ("negative" if Fr(case["angle"]) < 0 else "positive") + (":" + "+".join(t[0] for t in case["post"]) if case.get("post") else "") + (":reassembled" if case.get("history") else "")
         if case["kind"] == "face":
             return "face:" + "+".join(sorted({o[0] for o in case["face"]["fops"]}))
         uses = sorted({{"inverted-face": "inverted", "shifted-face": "shifted"}.get(x["cls"], "given") for x in self._described(case)})
